@@ -813,8 +813,9 @@ class Interp:
         for e in node.elts:
             if isinstance(e, ast.Starred):
                 v = self.eval(e.value, env, fn)
-                if isinstance(v, Tup):
-                    items.extend(v.items)
+                its = self.items_of(v)
+                if its is not None:
+                    items.extend(its)
                 else:
                     el = self.elem_of(v, e)
                     others = [self.eval(x, env, fn) for x in node.elts if x is not e and not isinstance(x, ast.Starred)]
